@@ -390,6 +390,11 @@ Fixpoint tm_spec_from (m : amap N N) (ops : list tagmap_op) : list (obs N N) :=
   end.
 Definition tagmap_run_spec (ops : list tagmap_op) : list (obs N N) := tm_spec_from [] ops.
 
+(* specification-level runs of the other three instances *)
+Definition smap_run_spec (ops : list smap_op) : list (obs (list N) N) := run_spec (list N) N bytes_eqb ops.
+Definition uset_run_spec (ops : list uset_op) : list (obs N unit) := run_spec N unit N.eqb ops.
+Definition stylemap_run_spec (ops : list stylemap_op) : list (obs N (list N)) := run_spec N (list N) N.eqb ops.
+
 (* boolean form of the side condition of the refinement theorem (TableProofs.params_ok) *)
 Definition params_okb (initial growth thr : nat) : bool :=
   Nat.leb 1 thr && Nat.leb thr 5 && Nat.leb 2 growth && Nat.leb 2 initial &&
